@@ -113,7 +113,9 @@ impl Decoder for Codec {
                     }
                 }
                 DecodeState::PublishHeader(fixed) => {
-                    if let Some(hdr_len) = decode::publish_size(src, fixed.first_byte)? {
+                    if let Some(hdr_len) =
+                        decode::publish_size(src, fixed.first_byte, fixed.remaining_length)?
+                    {
                         if src.len() < hdr_len as usize {
                             return Ok(None);
                         }
